@@ -149,6 +149,54 @@ Section StrategiesProofs.
   Theorem remote_addr_spec remote : remote_addr A parse remote = spec_remote A parse remote.
   Proof. reflexivity. Qed.
 
+  (* ---------------- never panics ---------------- *)
+  Theorem leftmost_no_panic fwd values limit bl : leftmost_non_private A parse fwd values limit bl <> Panic.
+  Proof. rewrite leftmost_spec. unfold spec_leftmost. destruct (find _ _) as [[a|]|]; discriminate. Qed.
+
+  Theorem rightmost_non_private_no_panic fwd values tr : rightmost_non_private A parse fwd values tr <> Panic.
+  Proof.
+    rewrite rightmost_non_private_spec. unfold spec_rightmost_non_private.
+    destruct (find _ _) as [[a|]|]; discriminate.
+  Qed.
+
+  Theorem trusted_count_no_panic fwd values n : rightmost_trusted_count A parse fwd values n <> Panic.
+  Proof.
+    unfold rightmost_trusted_count.
+    rewrite (backward_ip_addr_seq_is A parse parse_no_panic fwd values).
+    set (m := if n =? 0 then 2 ^ 64 - 1 else n - 1).
+    pose proof (count_fold (rev (entries fwd values)) m) as Hc.
+    destruct (fold_stop (count_yield A) _ _) as [[res m'] k]. simpl in Hc. subst res.
+    destruct (nth_error _ _) as [[a|]|]; discriminate.
+  Qed.
+
+  Theorem trusted_range_no_panic fwd values tr : rightmost_trusted_range A parse fwd values tr <> Panic.
+  Proof.
+    destruct tr as [tr|]; [|discriminate].
+    rewrite trusted_range_spec. unfold spec_trusted_range. destruct (find _ _) as [[a|]|]; discriminate.
+  Qed.
+
+  Theorem single_no_panic matches : single_ip_header A parse matches <> Panic.
+  Proof.
+    rewrite single_header_last. unfold spec_single. destruct (rev matches) as [|l ?]; [discriminate|].
+    destruct l; [discriminate|]. destruct (parse (a :: l)) eqn:Hp; try discriminate.
+    exfalso. exact (parse_no_panic _ Hp).
+  Qed.
+
+  Theorem remote_no_panic remote : remote_addr A parse remote <> Panic.
+  Proof.
+    unfold remote_addr. destruct (parse remote) eqn:Hp; try discriminate.
+    exfalso. exact (parse_no_panic _ Hp).
+  Qed.
+
+  Lemma chain_go_no_panic subs : forall errs,
+    Forall (fun s : unit -> result A => s tt <> Panic) subs -> chain_go A subs errs <> Panic.
+  Proof.
+    induction subs as [|s rest IH]; intros errs Hall.
+    - simpl. destruct errs; discriminate.
+    - inversion Hall as [|? ? Hs Hrest]; subst. simpl.
+      destruct (s tt) as [a|e| |] eqn:Hr; try discriminate; [apply IH; exact Hrest | congruence].
+  Qed.
+
   (* ---------------- chain ---------------- *)
   Lemma chain_go_some subs : forall es,
     chain_go A subs (Some es) =
